@@ -25,7 +25,7 @@ pub static DEF: PropDef = PropDef {
     level: "exploration",
     engine: "query",
     rule: "one run = a real Ingester (every write is one flush, published on the legacy and the topic channel) and a real QueryNode; one streaming SQL subscription (legacy query_stream or topic-filtered query_stream_filtered) with a WHERE clause generated from the supported family (comparisons in both operand orders on string / nullable string / integer / float columns, AND, OR, nesting) plus 1..3 raw topic subscriptions with generated filter expressions (All / Shard / Tenant / Metrics / And / Or nests); historical data is ingested before, 4..12 batches (1..6 rows, 1..3 metrics per batch, nulls, either timestamp type, timestamps before and after the merge point but never inside the subscription call's own interval) are flushed after the call returned, interleaved by the scheduler with the subscription's forwarding task; distinct = distinct (WHERE text, topic filters, batch shapes) hash; non-trivial = completed AND the expected live result is non-empty AND at least one row was expected to be filtered out",
-    quick_runs: 400,
+    quick_runs: 1500,
     thorough_runs: 10_000,
     run_cap_ms: 120_000,
     scen,
